@@ -233,6 +233,18 @@ class Inliner:
                             k = deco_kind(m, True)
                             if k and m.name not in PINNED_FUNCTIONS:
                                 cands[m.name] = Helper(m, node.name, k)
+        self.by_class = {}
+        self.bases = {}
+        for t in self.trees:
+            for node in t.body:
+                if isinstance(node, ast.ClassDef):
+                    self.bases[node.name] = [ast.unparse(b).split(".")[-1] for b in node.bases]
+                    for m in node.body:
+                        if isinstance(m, ast.FunctionDef) and m.name not in PINNED_FUNCTIONS and not (m.name.startswith("__") and m.name.endswith("__")):
+                            k = deco_kind(m, True)
+                            hh = Helper(m, node.name, k) if k else None
+                            if hh and hh.ok_sig and not hh.has_nested and not any(isinstance(n, ast.Call) and _call_name(n) == m.name for n in ast.walk(m)):
+                                self.by_class[(node.name, m.name)] = hh
         for name, h in cands.items():
             if seen.get(name, 0) != 1 or not h.ok_sig or h.has_nested:
                 continue
@@ -271,9 +283,27 @@ class Inliner:
                     return None
         return mp
 
-    def resolve(self, call: ast.Call):
+    def lookup_method(self, cls: Optional[str], name: str) -> Optional[Helper]:
+        """helper `name` as seen from class `cls` (own definition first, then the bases defined in the package)"""
+        seen = set()
+        todo = [cls] if cls else []
+        while todo:
+            c = todo.pop(0)
+            if c in seen or c is None:
+                continue
+            seen.add(c)
+            if (c, name) in self.by_class:
+                return self.by_class[(c, name)]
+            todo += self.bases.get(c, [])
+        return None
+
+    def resolve(self, call: ast.Call, cls: Optional[str] = None):
         """(helper, receiver) for a call to a new helper"""
         f = call.func
+        if isinstance(f, ast.Attribute) and isinstance(f.value, ast.Name) and f.value.id in ("self", "cls") and cls is not None:
+            h = self.lookup_method(cls, f.attr)
+            if h is not None:
+                return (h, None) if h.kind == "static" else (h, f.value)
         if isinstance(f, ast.Name) and f.id in self.helpers and self.helpers[f.id].kind == "function":
             return self.helpers[f.id], None
         if isinstance(f, ast.Attribute) and f.attr in self.helpers:
@@ -331,7 +361,21 @@ class Inliner:
 
     def drop_unused(self):
         """a helper that is no longer referenced anywhere has been inlined completely: remove its definition"""
+        allnames = set(self.helpers) | {n for (_, n) in self.by_class}
         used = set()
+        for t in self.trees:
+            for n in ast.walk(t):
+                if isinstance(n, ast.Attribute) and n.attr in allnames:
+                    used.add(n.attr)
+                elif isinstance(n, ast.Name) and n.id in allnames and isinstance(n.ctx, ast.Load):
+                    used.add(n.id)
+                elif isinstance(n, ast.Constant) and isinstance(n.value, str) and n.value in allnames:
+                    used.add(n.value)
+        for t in self.trees:
+            for holder in [t] + [c for c in t.body if isinstance(c, ast.ClassDef)]:
+                keep = [st for st in holder.body if not (isinstance(st, ast.FunctionDef) and st.name in allnames and st.name not in used)]
+                holder.body = keep or [ast.Pass()]
+        return
         for t in self.trees:
             for n in ast.walk(t):
                 if isinstance(n, ast.Attribute) and n.attr in self.helpers:
@@ -356,6 +400,13 @@ class _Rewriter(ast.NodeTransformer):
         self.inl = inl
         self.changed = False
         self.current: List[str] = []
+        self.cls: List[Optional[str]] = [None]
+
+    def visit_ClassDef(self, node):
+        self.cls.append(node.name)
+        self.generic_visit(node)
+        self.cls.pop()
+        return node
 
     # do not rewrite inside the helpers' own definitions while they may still be needed?  (they are rewritten too: nested helpers resolve
     # over several rounds)
@@ -378,7 +429,7 @@ class _Rewriter(ast.NodeTransformer):
     # ---- expression level -------------------------------------------------------
     def visit_Call(self, node):
         self.generic_visit(node)
-        h, recv = self.inl.resolve(node)
+        h, recv = self.inl.resolve(node, self.cls[-1])
         if h is None or h.name in self.current:
             return node
         e = self.inl.expr_form(h)
@@ -392,8 +443,13 @@ class _Rewriter(ast.NodeTransformer):
 
     def visit_Attribute(self, node):
         self.generic_visit(node)
-        if isinstance(node.ctx, ast.Load) and node.attr in self.inl.helpers:
-            h = self.inl.helpers[node.attr]
+        h = None
+        if isinstance(node.ctx, ast.Load):
+            if isinstance(node.value, ast.Name) and node.value.id == "self":
+                h = self.inl.lookup_method(self.cls[-1], node.attr)
+            if h is None:
+                h = self.inl.helpers.get(node.attr)
+        if h is not None:
             if h.kind == "property" and h.name not in self.current:
                 e = self.inl.expr_form(h)
                 mp = self.inl.bind(h, None, node.value)
@@ -422,7 +478,7 @@ class _Rewriter(ast.NodeTransformer):
                 return g
         if call is None:
             return [st]
-        h, recv = self.inl.resolve(call)
+        h, recv = self.inl.resolve(call, self.cls[-1])
         if h is None or h.name in self.current or h.is_gen:
             return [st]
         mp = self.inl.bind(h, call, recv)
@@ -466,7 +522,7 @@ class _Rewriter(ast.NodeTransformer):
         return [st]
 
     def fuse_generator(self, loop: ast.For):
-        h, recv = self.inl.resolve(loop.iter)
+        h, recv = self.inl.resolve(loop.iter, self.cls[-1])
         if h is None or not h.is_gen or h.name in self.current or loop.orelse:
             return None
         mp = self.inl.bind(h, loop.iter, recv)
@@ -526,8 +582,49 @@ def _ends_in_return(body) -> bool:
     return False
 
 
+class _ConstProp(ast.NodeTransformer):
+    def __init__(self, consts):
+        self.consts = consts
+
+    def visit_Name(self, node):
+        if isinstance(node.ctx, ast.Load) and node.id in self.consts:
+            return ast.copy_location(copy.deepcopy(self.consts[node.id]), node)
+        return node
+
+
+def propagate_new_constants(trees: List[ast.AST], pinned_globals) -> bool:
+    """module-level `NAME = <literal>` introduced after the pinned tree (not in pinned_globals) is substituted where it is used in the same
+    module (a refactoring that names a magic number / string)"""
+    changed = False
+    for t in trees:
+        consts = {}
+        stores = {}
+        for st in t.body:
+            if isinstance(st, ast.Assign) and len(st.targets) == 1 and isinstance(st.targets[0], ast.Name):
+                stores[st.targets[0].id] = stores.get(st.targets[0].id, 0) + 1
+                if isinstance(st.value, ast.Constant) and isinstance(st.value.value, (int, float, str)) and not isinstance(st.value.value, bool):
+                    consts[st.targets[0].id] = st.value
+        consts = {k: v for k, v in consts.items() if stores.get(k) == 1 and k not in pinned_globals}
+        # never assigned elsewhere (global statements / attribute stores are not tracked: constants are ALL_CAPS or _private by convention)
+        consts = {k: v for k, v in consts.items() if k.upper() == k or k.startswith("_")}
+        if not consts:
+            continue
+        for node in t.body:
+            if isinstance(node, (ast.FunctionDef, ast.ClassDef)):
+                _ConstProp(consts).visit(node)
+                changed = True
+    return changed
+
+
 def inline_new_helpers(trees: List[ast.AST]) -> bool:
+    from .anchors import PINNED_GLOBALS
+
+    c = propagate_new_constants(trees, PINNED_GLOBALS)
     inl = Inliner(trees)
-    if not inl.helpers:
+    if not inl.helpers and not inl.by_class:
+        return c
+    return inl.run() or c
+    inl = Inliner(trees)
+    if not inl.helpers and not inl.by_class:
         return False
     return inl.run()
